@@ -134,6 +134,9 @@ def decorate(ad, rng, index, p_style=0.35, p_anim=0.2, nonzero_offsets=True):
       ad["anim_styles"][k] = steps
   ad["rstyles"] = [some_styles(0.7) for _ in range(ad["nr"])]
   ad["ranim_styles"] = [some_anims(0.4) for _ in range(ad["nr"])]
+  if ad.get("t0"):
+    ad["anim_styles"][0] = []          # see docgen.random_doc: no steps on the elements that carry the shift
+    ad["ranim_styles"] = [[] for _ in range(ad["nr"])]
   # Display is modelled by disp/anim of the abstract document: keep it out of the decorations
   for lst in ad["styles"] + ad["rstyles"]:
     lst[:] = [x for x in lst if x[0] not in ("Display", "ShowBackground")]
